@@ -151,7 +151,7 @@ def catalogue(tier, seed):
             zspec(view="fork", badAt=2, badKind="badtxn"), zspec(rules=[dict(rpc="SendV2Blocks", kind="short")]),
             zspec(relays=[dict(kind="txset-empty", when="connected")]), zspec(rules=[dict(rpc="SendV2Blocks", kind="stall")]),
             zspec(view="fork", badAt=0, badKind="payout"), zspec(relays=[dict(kind="hdr-unknownparent", when="connected")])]
-    for j in range(12 if not thorough else 90):
+    for j in range(12 if not thorough else 330):
         regime = rng.choice(regs)
         zs = [json.loads(json.dumps(z)) for z in rng.sample(pool, rng.choice([1, 2, 2, 3]))]
         if regime == "post":
